@@ -772,8 +772,8 @@ def trusted_scan(rendered):
 
 # --------------------------------------------------------------------------------------------------
 VERIF_FAIL_PATTERNS = [
-    ('post', r'postcondition not satisfied'),
-    ('pre', r'precondition not satisfied'),
+    ('post', r'postcondition not satisfied|unable to prove post-?condition'),
+    ('pre', r'precondition not satisfied|unable to prove pre-?condition'),
     ('assert', r'assertion failed'),
     ('inv', r'invariant not satisfied'),
     ('overflow', r'possible arithmetic (underflow/overflow|overflow|underflow)'),
